@@ -115,8 +115,12 @@ func viewOf(rn gen.RemoteNode) View {
 
 func (r *AccRunner) RunCookie(c *AccCase) error {
 	tag := r.tag()
-	p, err := StartPair(NodeOpts{Name: "ca" + tag + "@localhost", Cookie: c.NodeA, PoolSize: 2, Flags: flags(c.SpawnA, c.AppA), MaxMsgSize: c.MaxA},
-		NodeOpts{Name: "cb" + tag + "@localhost", Cookie: c.NodeB, AccCookie: c.Acc, PoolSize: 2, Flags: flags(c.SpawnB, c.AppB), MaxMsgSize: c.MaxB})
+	gap := time.Duration(0)
+	if c.ID%6 == 1 {
+		gap = 1100 * time.Millisecond // different incarnation stamps on the two ends
+	}
+	p, err := StartPairStaggered(NodeOpts{Name: "ca" + tag + "@localhost", Cookie: c.NodeA, PoolSize: 2, Flags: flags(c.SpawnA, c.AppA), MaxMsgSize: c.MaxA},
+		NodeOpts{Name: "cb" + tag + "@localhost", Cookie: c.NodeB, AccCookie: c.Acc, PoolSize: 2, Flags: flags(c.SpawnB, c.AppB), MaxMsgSize: c.MaxB}, gap)
 	if err != nil {
 		return err
 	}
